@@ -187,7 +187,7 @@ theorem loaderName_agrees (w : World) (o : PO) :
         cases hs : Template.subst o.env.get (selectedName w.files) with
         | ok s =>
           by_cases h1 : normalize s = []
-          · by_cases h2 : normalize w.dir = []
+          · by_cases h2 : normalize (projDir w o) = []
             · simp [Agrees, h1, h2]
             · simp [Agrees, h1, h2]
           · simp [Agrees, h1]
@@ -200,7 +200,7 @@ theorem loaderName_agrees (w : World) (o : PO) :
       cases hs : Template.subst o.env.get (selectedName w.files) with
       | ok s =>
         by_cases h1 : normalize s = []
-        · by_cases h2 : normalize w.dir = []
+        · by_cases h2 : normalize (projDir w o) = []
           · simp [Agrees, h1, h2]
           · simp [Agrees, h1, h2]
         · simp [Agrees, h1]
@@ -337,6 +337,10 @@ theorem applyOpt_env (w : World) (o o' : PO) (x : Opt) (h : applyOpt w o x = .ok
       cases h
       simp [overOf, underStep, hm]
     · cases h
+  | withWorkDir b =>
+    simp only [applyOpt] at h
+    cases h
+    cases b <;> simp [overOf, underStep]
 
 theorem explicitLayer_cons (x : Opt) (xs : List Opt) :
     explicitLayer (x :: xs) = explicitLayer xs ++ overOf x := by
@@ -380,6 +384,7 @@ theorem underOf_noDot (w : World) (pre : List Opt) (o o1 : PO)
       | withName n => simp [underStep, osLayer, Env.get, List.contains_cons]
       | withEnv l => simp [underStep, osLayer, Env.get, List.contains_cons]
       | withEnvFiles l => simp [underStep, osLayer, Env.get, List.contains_cons]
+      | withWorkDir b => simp [underStep, osLayer, Env.get, List.contains_cons]
     · cases h
 
 theorem runOpts_append (w : World) (a b : List Opt) (o : PO) :
@@ -561,6 +566,10 @@ theorem runOpts_name (w : World) (opts : List Opt) (o o' : PO) (h : runOpts w op
         split at h1
         · cases h1; simp [requestedName]
         · cases h1
+      | withWorkDir b =>
+        simp only [applyOpt] at h1
+        cases h1
+        cases b <;> simp [requestedName]
     · cases h
 
 end CV.Name
